@@ -54,4 +54,34 @@ theorem foreign_of_disjoint (c : Coll) (a : Nat) (blk : Blk) (hin : blk.base ≤
   simp only at hdec
   omega
 
+/-! ### arrays -/
+
+/-- **an own array is recognised and released**: `try_deallocate_array(ptr, count, size)` of an array whose cells the
+caller holds returns `true`, and the invariant holds for the ledger without its cells -/
+theorem C08_coll_try_dealloc_array_own (cfg : Cfg) {arr arrLen : Nat} {c : Coll} {live : List (Nat × Nat)} (h : CInv arr arrLen c live)
+    (harr : c.arrays = true) {a count s : Nat} {l : AnyList} (hl : c.lists[c.listIndex s]? = some l) (hs : s ≤ c.maxNodeSize)
+    (hsub : ∀ x ∈ arrEntries l.nodeSize a s (arrCells l.nodeSize count s), x ∈ live) :
+    (c.tryDeallocateArray cfg a count s).out = .bool true ∧
+      CInv arr arrLen (c.tryDeallocateArray cfg a count s).st (removeEntries live (arrEntries l.nodeSize a s (arrCells l.nodeSize count s))) := by
+  obtain ⟨_, _, hpos⟩ := h.lists _ l hl
+  have hk : 0 < arrCells l.nodeSize count s := cellsOf_pos _ _ hpos
+  have hm : (a, s) ∈ live := by
+    apply hsub
+    unfold arrEntries
+    exact List.mem_map.mpr ⟨a, mem_blockNodes.mpr ⟨0, hk, by simp⟩, rfl⟩
+  have hown := live_owned h hm
+  obtain ⟨d1, _, d3⟩ := Coll.deallocateArray_inv cfg h hl hsub
+  unfold Coll.tryDeallocateArray
+  have hgt : ¬ s > c.maxNodeSize := by omega
+  simp only [harr, hgt, decide_false, Bool.not_true, Bool.false_or, hown, Bool.false_eq_true, if_false]
+  simp only [d1]
+  exact ⟨trivial, d3⟩
+
+/-- **a foreign array is refused and nothing changes** (also: a collection without array support refuses every array) -/
+theorem C08_coll_try_dealloc_array_foreign (cfg : Cfg) (c : Coll) (a count s : Nat)
+    (hf : c.arena.owns a = false ∨ c.arrays = false) :
+    (c.tryDeallocateArray cfg a count s).out = .bool false ∧ (c.tryDeallocateArray cfg a count s).st = c := by
+  unfold Coll.tryDeallocateArray
+  rcases hf with hf | hf <;> simp [hf]
+
 end MemVerif.Props.C08Coll
